@@ -12,1083 +12,1059 @@ Definition show_fres (r : fres) : string :=
   end.
 Definition check (rs : list rune) : string := digest (show_fres (format_res rs)).
 Definition full (rs : list rune) : string := show_fres (format_res rs).
-Eval vm_compute in ("<<<M1354>>>" ++ check (runes_of_ascii "// top
+Eval vm_compute in ("<<<M1364>>>" ++ check (runes_of_ascii "// top
 options // c0
-{
-    // c1
-StringPrefixLenType = u16 ; // c5
-ArrayPrefixLenType
-    // c6
-= // c7a
-  // c7b
-u32 ;
-    // c9
-FixedStringPadFromLeft
-    // c10
-= // c11
-true // c12a
-  // c12b
-; FixedStringPadChar = // c15a
+{ // c1a
+  // c1b
+StringPrefixLenType // c2a
+  // c2b
+= // c3a
+  // c3b
+u8 // c4
+; ArrayPrefixLenType // c6a
+  // c6b
+=
+    // c7
+u32 // c8a
+  // c8b
+; // c9
+FixedStringPadFromLeft = // c11a
+  // c11b
+true
+    // c12
+;
+    // c13
+FixedStringPadChar = // c15a
   // c15b
-'0' // c16a
+' ' // c16a
   // c16b
 ;
     // c17
-} packet Cancel // c20
-{ // c21a
-  // c21b
-} // c22a
-  // c22b
+} // c18a
+  // c18b
 packet
-    // c23
-Party { }
-    // c26
-packet // c27a
-  // c27b
-Logon // c28
-{ } packet
-    // c31
-Ack // c32
-{ // c33a
-  // c33b
-} // c34
-packet // c35a
-  // c35b
-Logout // c36
-{ // c37a
-  // c37b
-repeat // c38
-InSym87
-    // c39
-{ // c40a
-  // c40b
-InClordid94 // c41
+    // c19
+Leg { } packet // c23
+Heartbeat
+    // c24
 {
-    // c42
-string // c43a
-  // c43b
-clOrdID ,
-    // c45
-} ,
-    // c47
-string // c48a
-  // c48b
-Px // c49
-, i16 // c51a
-  // c51b
+    // c25
+zchar[
+    // c26
+6 ] // c28
+msgKind // c29a
+  // c29b
+, @rightPad // c31
+( '0' // c33
+) // c34
+char[ 3 // c36a
+  // c36b
+] // c37
 Qty
-    // c52
-, // c53
-repeat
+    // c38
+, zchar[ 9 // c41
+] // c42
+Side2 ,
+    // c44
+i8 // c45a
+  // c45b
+Acct // c46
+,
+    // c47
+} // c48a
+  // c48b
+packet // c49a
+  // c49b
+Logout { // c51a
+  // c51b
+int8 // c52
+x ,
     // c54
-InCount71 { repeat // c57a
-  // c57b
-Cancel
-    // c58
-,
+} // c55
+packet Order { // c58a
+  // c58b
+char[]
     // c59
-uint16 // c60
-Tail
-    // c61
-,
-    // c62
-char[
+Acct , // c61
+zchar[ // c62
+8
     // c63
-2 // c64a
-  // c64b
-] // c65
-x , // c67a
+] count
+    // c65
+, u32 // c67a
   // c67b
-repeat
-    // c68
-string // c69
-Ref // c70a
+OrderId // c68
+, uint8 // c70a
   // c70b
-, // c71
-} , Cancel , // c75a
-  // c75b
-}
-    // c76
-, }
+lastPx // c71
+, u16 // c73
+clOrdID // c74a
+  // c74b
+, zchar[ // c76a
+  // c76b
+7
+    // c77
+]
     // c78
-root // c79
-packet // c80a
-  // c80b
-Order // c81a
-  // c81b
-{ // c82
-repeat // c83a
-  // c83b
-string
-    // c84
-tag7
-    // c85
-, @leftPad // c87
-( // c88a
-  // c88b
-' ' ) // c90
-char[ 3 ]
-    // c93
-Px
-    // c94
-, // c95a
-  // c95b
-u8
+Note ,
+    // c80
+} // c81
+root // c82a
+  // c82b
+packet // c83
+Reject { @leftPad ( // c87
+' ' ) char[ // c90
+8 // c91
+] Side2 , // c94a
+  // c94b
+i8 clOrdID
     // c96
-Qty ,
-    // c98
-match Qty as // c101a
-  // c101b
-Body { [ // c104a
-  // c104b
-28 // c105a
-  // c105b
-, // c106
-62 // c107
-] // c108
-:
-    // c109
-Logon
-    // c110
-, // c111a
-  // c111b
-148 // c112
-: // c113a
-  // c113b
-Ack
-    // c114
-, // c115a
-  // c115b
-88
-    // c116
-: Party // c118a
-  // c118b
-, // c119
-184 // c120a
-  // c120b
-: Cancel // c122a
-  // c122b
-, // c123
-} // c124
-, // c125a
-  // c125b
-u16
-    // c126
-Note // c127
-@calculatedFrom( ""CRC32"" // c129
-) // c130
-, // c131
-} ")).
-Eval vm_compute in ("<<<M1869>>>" ++ check (runes_of_ascii "root packet crc {
-    uint32 repeatCount @lengthOf(MetaDataX) `say ""hi""`,
-    @tag(65535)
-    A {
-        u128,
-        u8x {
-            repeatCount @lengthOf(As),// packet A { u8 x, }
-            i32 _x @calculatedFrom(""" ++ [128512]%N ++ runes_of_ascii """),
-        },
-    },
-    @lengthOf(As)
-    @tag(0)
-    @tag(4294967296)
-    string metadata,
-    string lengthOf @lengthOf(f32a),
-    @tag(3)
-    string packetx,
-    @lengthOf(Pad)
-    @lengthOf(packetx)
-    BodyLength @calculatedFrom(""a	b""),
-    repeat u8x {
-        zchar[3] tag `doc`,
-        match As as leftPad {
-            [10, 3, 7, ""abc"", 42] : A,
-        },
-        match Header as falsey {
-            42 : msg_type,
-            00 : A,
-            1 : charz,
-            ""// no comment"" : int,
-            0123456789 : chars,
-            4294967296 : x,
-        },
-    },
-    @tag(10)
-    @tag(007)
-    @calculatedFrom(""`tick`"")
-    i8i8 @lengthOf(charz),
-    char[7] Header,
-}
-
-packet lengthOf {
-    match metadata as asx {
-        7 : float,
-        // " ++ [128512]%N ++ runes_of_ascii " emoji
-        """ ++ [233]%N ++ runes_of_ascii "t" ++ [233]%N ++ runes_of_ascii """ : stringy,
-        """ ++ [28040; 24687]%N ++ runes_of_ascii """ : BodyLength,
-        7 : leftPad,
-    },
-    @lengthOf(MetaDataX)
-    repeat zchar[7] float,
-    @tag(0)
-    matchKey @calculatedFrom(""packet""),
-}
-
-packet Pad {
-    options1 @lengthOf(rootA),
-}
-
-root packet BodyLength {
-    string uint8x @lengthOf(Z9_),
-}// c")).
-Eval vm_compute in ("<<<M134>>>" ++ check (runes_of_ascii "packet // " ++ [128512]%N ++ runes_of_ascii " emoji
-x{
-    //x
-    lengthOf @calculatedFrom(""abc"")
-`u8 x,`
-    ,
-@rightPad( )
-//x
-// @lengthOf(
-float32 Packet @lengthOf( falsey ) ,	char[ 10] falsey , @tag( 3  ) repeat zchar[
-    4294967296 ] repeatCount ,repeatCount`say ""hi""` , int16 u128 // `tick` ""quote"" 'q'
 ,
-char[ 3
-] crc
-@calculatedFrom( ""x y"" )
-, // trailing space 
-@leftPad
+    // c97
+repeat f32 x
+    // c100
+,
+    // c101
+u32
+    // c102
+lastPx
+    // c103
+,
+    // c104
+match // c105a
+  // c105b
+lastPx
+    // c106
+as
+    // c107
+Body
+    // c108
+{ // c109a
+  // c109b
+[ 30 , // c112
+147
+    // c113
+]
+    // c114
+:
+    // c115
+Heartbeat // c116
+, // c117
+134
+    // c118
+: Leg // c120a
+  // c120b
+,
+    // c121
+183
+    // c122
+: // c123
+Logout // c124
+, 40 :
+    // c127
+Order
+    // c128
+, // c129a
+  // c129b
+} // c130
+, // c131
+u16 Ref @calculatedFrom( // c134
+""CRC32""
+    // c135
+) ,
+    // c137
+} // c138
+")).
+Eval vm_compute in ("<<<M1755>>>" ++ check (runes_of_ascii "options {
+    BodyLength = 3;// " ++ [128512]%N ++ runes_of_ascii " emoji
+    T = ""packet"";
+    // c
+    // trailing space 
+    crc = true;
+    falsey = '\x00';
+}
+
+root packet A {
+    @leftPad('0')
+    char[65535] Header `" ++ [233]%N ++ runes_of_ascii "`,
+    @rightPad('0')
+    //
+    a1 @lengthOf(msg_type),
+    @lengthOf(rootA)
+    match _x as stringy {
+        ""CRC32"" : chars,
+        3 : float,
+        255 : asx,
+        10 : tag,
+        //
+    },
+    @calculatedFrom(""" ++ [128512]%N ++ runes_of_ascii """)
+    u32 u8x `crlf
+        line`,
+    repeat char[] asx `a\`,
+    @rightPad('0')
+    match f32a as Packet {
+        [
+            255, ""CRC32"", 007, ""1"", ""packet"",
+            00, 4294967296
+        ] : calculatedFrom,
+        ""packet"" : falsey,
+        ""a\""b"" : body,
+        7 : Packet,
+        // " ++ [128512]%N ++ runes_of_ascii " emoji
+        0123456789 : i64_,
+        // a // b
+        [4294967296, 0123456789] : options1,
+    },
+    crc @lengthOf(Foo),
+    @calculatedFrom(""{,}"")
+    @lengthOf(metadata)
+    @lengthOf(i8i8)
+    int64 options1 @calculatedFrom(""CRC32"") `line1
+        line2`,// @lengthOf(
+}
+
+packet a1 {
+    match lengthOf as x_y_z {
+        ""it's"" : matchKey,
+        10 : Packet,
+        [""abc""] : A,
+        10 : metadata,
+    },
+}
+
+MetaData body {
+    char string_,
+    char[] x,
+    len Pad,
+    string leftPad,
+}// trailing space ")).
+Eval vm_compute in ("<<<M174>>>" ++ check (runes_of_ascii "
+root packet asx { leftPad
+    {u128 @calculatedFrom( ""1""
+) , //x
+}
+, lengthOf // packet A { u8 x, }
+@calculatedFrom( """ ++ [128512]%N ++ runes_of_ascii """ ) `a\`
+, i64 // `tick` ""quote"" 'q'
+Packet @lengthOf(  calculatedFrom ) , @calculatedFrom(
+""" ++ [233]%N ++ runes_of_ascii "t" ++ [233]%N ++ runes_of_ascii """ ) stringy	a1 `doc` // `tick` ""quote"" 'q'
+, @rightPad
     (
+    // a // b
+    )
+    // c
+    a1
+    `a\`
+,  char
+Header @lengthOf(
+    x )`say ""hi""`, uint8x
+Z9_ `tab	here` ,  }
+options
+    {
+    calculatedFrom// packet A { u8 x, }
+= 0}	packet metadata {@leftPad ( '\x00'	) f32
+    pack
+//	t
+//
+, @tag( 65535 ) u32 uint8x @lengthOf( repeatCount) ``,MetaDataX	{ repeat options1 , match
+matchKey as len { """ ++ [128512]%N ++ runes_of_ascii """:
+    u8x	, 1 :
+zchar
+, /// triple
+[ ""a\\""
+    ,
+    ""x y"" ] : charz 0
+    :
+    x_y_z
+    //
+    ,[// trailing space 
+4294967296// `tick` ""quote"" 'q'
+]: asx  , [/// triple
+""a\""b"" , ""\n"" , ""\" ++ [233]%N ++ runes_of_ascii """ ,10 ] : _x ,
+    }	, uint8  metadata
+@lengthOf(float
+) ,
+zchar[
+    255] i8i8 , },
+    }root  packet
+f32a
+    { }")).
+Eval vm_compute in ("<<<M1962>>>" ++ check (runes_of_ascii "root packet asx {
+    leftPad {
+        u128 @calculatedFrom(""1""),//x
+    },
+    lengthOf @calculatedFrom(""" ++ [128512]%N ++ runes_of_ascii """) `a\`,
+    i64 Packet @lengthOf(calculatedFrom),
+    @calculatedFrom(""" ++ [233]%N ++ runes_of_ascii "t" ++ [233]%N ++ runes_of_ascii """)
+    stringy a1 `doc`,
+    @rightPad()
+    // c
+    a1 `a\`,
+    char Header @lengthOf(x) `say ""hi""`,
+    uint8x Z9_ `tab	here`,
+}
+
+options {
+    calculatedFrom = 0
+}
+
+packet metadata {
+    @leftPad('\x00')
+    f32 pack,
+    @tag(65535)
+    u32 uint8x @lengthOf(repeatCount) ``,
+    MetaDataX {
+        repeat options1,
+        match matchKey as len {
+            """ ++ [128512]%N ++ runes_of_ascii """ : u8x,
+            1 : zchar,
+            /// triple
+            [""a\\"", ""x y""] : charz,
+            0 : x_y_z,
+            [4294967296] : asx,
+            [""a\""b"", ""\n"", ""\" ++ [233]%N ++ runes_of_ascii """, 10] : _x,
+        },
+        uint8 metadata @lengthOf(float),
+        zchar[255] i8i8,
+    },
+}
+
+root packet f32a {
+}")).
+Eval vm_compute in ("<<<M230>>>" ++ check (runes_of_ascii "packet rootA{	match
+zchar as
+    // " ++ [128512]%N ++ runes_of_ascii " emoji
+    int {
+    [ ""it's""
+, ""1""]
+    :// c
+tag ,
+    } , char Packet @lengthOf( body ) , metadata @lengthOf( packetx ) ,@calculatedFrom( """ ++ [128512]%N ++ runes_of_ascii """	)match
+    repeatCount as f32a { """ ++ [28040; 24687]%N ++ runes_of_ascii """
+    :chars ,
+    }
+    ,@lengthOf(string_ )char[ 0
+    //
+    ] len @calculatedFrom(
+""abc"" )
+,
+    // `tick` ""quote"" 'q'
+    u8 uint8x@lengthOf( roots)  `say ""hi""`
+, int @calculatedFrom( ""a\""b"") ,match
+msg_type as i8i8 {// c
+""\" ++ [233]%N ++ runes_of_ascii """
+// " ++ [27880; 37322]%N ++ runes_of_ascii "
+// packet A { u8 x, }
+: Header , 1 : zchar,
+    [ ""\n""	]
+:	string_
+""\n"" :i8i8 0123456789 : Logon
+    [ 00 , 007 ,""1"" ,
+    //	t
+    ""it's""
+    , ""// no comment""
+    ,
+    0
+, ""a\\"" ,// packet A { u8 x, }
+007 ]
+    :BodyLength}
+, match rootA as // c
+chars  {
+7
+:
+    // @lengthOf(
+    Header }
+, A Foo `tab	here` ,
+}
+")).
+Eval vm_compute in ("<<<M1366>>>" ++ check (runes_of_ascii "options {
+    StringPrefixLenType = u8;
+    ArrayPrefixLenType = u32;
+    FixedStringPadFromLeft = true;
+    FixedStringPadChar = ' ';
+}
+packet Leg {
+}
+packet Heartbeat {
+    zchar[6] msgKind,
+    @rightPad('0') char[3] Qty,
+    zchar[9] Side2,
+    i8 Acct,
+}
+packet Logout {
+    int8 x,
+}
+packet Order {
+    char[] Acct,
+    zchar[8] count,
+    u32 OrderId,
+    uint8 lastPx,
+    u16 clOrdID,
+    zchar[7] Note,
+}
+root packet Reject {
+    @leftPad(' ') char[8] Side2,
+    i8 clOrdID,
+    repeat f32 x,
+    u32 lastPx,
+    match lastPx as Body {
+        [30, 147] : Heartbeat,
+        134 : Leg,
+        183 : Logout,
+        40 : Order,
+    },
+    u16 Ref @calculatedFrom(""CR\
+C32""),
+}
+")).
+Eval vm_compute in ("<<<M1600>>>" ++ check (runes_of_ascii "root packet matchKey {
+    match Foo as Z9_ {
+        // c
+        [""x y"", ""1"", 007, 7] : pack,
+        ""`tick`"" : u128,
+        ""a	b"" : msg_type,
+        [00, 65535] : a1,
+        ""it's"" : Foo,
+        // " ++ [128512]%N ++ runes_of_ascii " emoji
+        [""""] : u,
+    },
+}
+
+packet calculatedFrom {
+    msg_type {
+        T @calculatedFrom(""\n""),
+        float64 i8i8,
+        As `
+                `,
+        u32 rootA @lengthOf(float),
+    },
+}
+
+packet x_y_z {
+    @tag(0)
+    i64_ @lengthOf(MetaDataX),
+}
+
+packet A {
+    @calculatedFrom(""a\\"")
+    @calculatedFrom(""abc"")
+    _x u `say ""hi""`,
+}
+
+options {
+    // trailing space 
+    metadata = ""a\\"";// a // b
+}")).
+Eval vm_compute in ("<<<M1116>>>" ++ check (runes_of_ascii "// top
+MetaData // c0
+Packet // c1
+{ // c2
+} // c3
+packet // c4
+charz // c5
+{ // c6
+Foo // c7
+asx // c8
+`it's` // c9
+, // c10
+@lengthOf( // c11
+T // c12
+) // c13
+@calculatedFrom( // c14
+"""" // c15
+) // c16
+@calculatedFrom( // c17
+""x y"" // c18
+) // c19
+zchar[ // c20
+007 // c21
+] // c22
+repeatCount // c23
+@lengthOf( // c24
+int // c25
+) // c26
+`a\` // c27
+, // c28
+i8 // c29
+string_ // c30
+, // c31
+repeat // c32
+options1 // c33
+Pad // c34
+, // c35
+} // c36
+root // c37
+packet // c38
+Packet // c39
+{ // c40
+int8 // c41
+float // c42
+`doc` // c43
+, // c44
+} // c45
+")).
+Eval vm_compute in ("<<<M1349>>>" ++ check (runes_of_ascii "options {
+    ArrayPrefixLenType = u64;
+    FixedStringPadFromLeft = true;
+    FixedStringPadChar = '0';
+}
+packet Quote {
+}
+packet Ack {
+    repeat InNote66 {
+        u8 pad0,
+    },
+}
+packet Reject {
+}
+root packet Order {
+    Quote,
+    repeat Reject,
+    string venue,
+    string seqNo,
+    uint32 Ref,
+    u16 lastPx,
+    u32 clOrdID @lengthOf(Body),
+    match lastPx as Body {
+        190 : Reject,
+        186 : Quote,
+        22 : Ack,
+    },
+    u16 Flags @calculatedFrom(""CRC32""),
+}
+")).
+Eval vm_compute in ("<<<M48>>>" ++ check (runes_of_ascii "root	packet Logon { @calculatedFrom( """" ) @lengthOf( int ) @tag( 3
+) match _x
+as // a // b
+i64_ { 10:asx
+// `tick` ""quote"" 'q'
+/// triple
+""" ++ [128512]%N ++ runes_of_ascii """ : crc ,[ 0
+,
+007
+] : float  ,// trailing space 
+}
+    , repeat //	t
+uint16
+leftPad  ,
+    }
     // " ++ [27880; 37322]%N ++ runes_of_ascii "
-    '\x00' )	match chars as i8i8 {
-    42 : charz// trailing space 
-,}
-, }  options {	} MetaData metadata { char[ 4294967296 ] i8i8	,
-    float
-    rootA , i64
-    packetx // " ++ [27880; 37322]%N ++ runes_of_ascii "
-, i8 // " ++ [27880; 37322]%N ++ runes_of_ascii "
-roots `crlf
+    packet charz
+{  } MetaData
+int {
+//
+// trailing space 
+zchar[ 4294967296 ]matchKey
+,
+asx rootA
+    `doc`
+, Foo string_ `// not a comment`
+,
+    char[]u8x , // `tick` ""quote"" 'q'
+roots
+float , }
+")).
+Eval vm_compute in ("<<<M256>>>" ++ check (runes_of_ascii "
+options // " ++ [27880; 37322]%N ++ runes_of_ascii "
+{ T = zchar[ 42
+] options1 = uint8 ;
+lengthOf
+=
+    // a // b
+    char[4294967296
+    ]
+    ; } packet Z9_ { repeat
+MetaDataX
+`crlf
 line`
     ,
-    tag i64_  , uint8 Pad `" ++ [233]%N ++ runes_of_ascii "`
-, }root packet Header{
-u64 options1  `two words`
-    , @calculatedFrom(""a\\"" // trailing space 
-) // " ++ [128512]%N ++ runes_of_ascii " emoji
-i32 //	t
-x_y_z	@calculatedFrom( ""a\""b"")`tab	here` , match
-A as len { [ ""CRC32"" // " ++ [128512]%N ++ runes_of_ascii " emoji
-,""it's""  ] //	t
-: Z9_ ""a	b"" :
-    o ,
-} , match asx
-as pack {0 :	x_y_z , }
-    , char[] i64_ `{ , }`
-,
-    }
-MetaData stringy
-{ // trailing space 
-lengthOf
-// `tick` ""quote"" 'q'
-//	t
-o, string//
-u8x , f32 string_ `doc` ,}
-")).
-Eval vm_compute in ("<<<M17>>>" ++ check (runes_of_ascii "
-MetaData
-    x{ len
-    crc , float
-    // " ++ [128512]%N ++ runes_of_ascii " emoji
-    asx, i32 uint8x`line1
-line2` ,u16
-tag
-// `tick` ""quote"" 'q'
-//x
-`it's` , As string_
-    ,
-}
-packet metadata {@lengthOf(zchar )// c
-i64_ @calculatedFrom(
-""\" ++ [233]%N ++ runes_of_ascii """	) , //x
-@leftPad
-    ( '\x00' ) zchar[ 10
-] zchar
-    ,
-    lengthOf //x
-string_ ,int @lengthOf( pack
-    ),
-    zchar[ 00 ]
-    Foo , @lengthOf( packetx )
-    @leftPad (
-'\x00'// " ++ [27880; 37322]%N ++ runes_of_ascii "
-) @calculatedFrom(
+repeat string x_y_z	,
+    u32 x
+, // `tick` ""quote"" 'q'
+@tag(
+// " ++ [128512]%N ++ runes_of_ascii " emoji
+// " ++ [128512]%N ++ runes_of_ascii " emoji
+00 )repeat i64 Logon ,
+u8x
+f32a, repeat
+    lengthOf``, repeat
+stringy Pad
     // @lengthOf(
-    ""x y"" )uint16
-len@calculatedFrom( """" )
-`two words` , int8
-    metadata @lengthOf( Foo )`two words`	, // @lengthOf(
-}options
-{ }
-packet
-pack{
-// `tick` ""quote"" 'q'
-//
-f64
-    o , T BodyLength  ,
-    repeat
-    uint8 chars  `" ++ [233]%N ++ runes_of_ascii "`
-    ,repeat
-    // c
-    Logon
-u
-    // " ++ [128512]%N ++ runes_of_ascii " emoji
-    ,@tag(
-    0123456789 )
-char[] repeatCount @lengthOf(// " ++ [27880; 37322]%N ++ runes_of_ascii "
-_x )
-    // c
     `
-` ,//
-@tag(
-// packet A { u8 x, }
-/// triple
-7 )  repeatCount @calculatedFrom(""packet"" ) `{ , }` , }")).
-Eval vm_compute in ("<<<M371>>>" ++ check (runes_of_ascii "root
-    packet
-packetx
-    {
-    @tag( 0) char[00 ] Z9_
-    ,
-    // a // b
-    falsey
-    // c
-    { match
-    x as options1 { [//	t
-42 ,
-    007 ]:
-    uint8x } , uint8 falsey `crlf
-line` , }
-, f64 Pad
-, @tag(7  ) string Logon// " ++ [27880; 37322]%N ++ runes_of_ascii "
-`a\`, @lengthOf(
-lengthOf//	t
-) char[
-3
-    ]
-// " ++ [27880; 37322]%N ++ runes_of_ascii "
-//
-calculatedFrom @calculatedFrom(
-""" ++ [28040; 24687]%N ++ runes_of_ascii """
-)
-, char[]
-    T , //x
-@tag(
-42 ) @leftPad ( )
-    char[]trueish
-@calculatedFrom(""`tick`"" ) ,match
-    // `tick` ""quote"" 'q'
-    uint8x as pack { [
-    ""abc"",
-    ""1"" ,""packet""
-,
-// `tick` ""quote"" 'q'
-// `tick` ""quote"" 'q'
-1,
-    ""a\""b""]: As	, """ ++ [28040; 24687]%N ++ runes_of_ascii """ :
-    trueish ,} ,
-}
-packet/// triple
-charz
-{
+`,
     repeat
-Z9_ { Pad  {match len as string_{
-    // a // b
-    4294967296
-    : msg_type , [""// no comment""
-    ] :u
-    ,
-} ,} , zchar[
-    65535
-] As  @lengthOf(//x
-string_
-)
-,
-} ,
-    }")).
-Eval vm_compute in ("<<<M312>>>" ++ check (runes_of_ascii "packet // packet A { u8 x, }
-tag
-    { @calculatedFrom(""x y"" ) lengthOf{ options1
-    `
-`,} , @tag( 7 )
-int {
-//x
-// " ++ [27880; 37322]%N ++ runes_of_ascii "
-char[ 007  ] // `tick` ""quote"" 'q'
-calculatedFrom @lengthOf(
-metadata
-)  , tag @lengthOf( falsey
-) ,	f32
-    // " ++ [128512]%N ++ runes_of_ascii " emoji
-    calculatedFrom
-// `tick` ""quote"" 'q'
-//
-`{ , }` , i8i8
-    {string
-    i64_ @lengthOf( asx )	`it's` , u @calculatedFrom(  ""\n"" ) ,
-    } ,	}
-    ,
-    @calculatedFrom(""abc"" //
-)  @leftPad ( ' '
-    )  uint64 calculatedFrom
-,// " ++ [27880; 37322]%N ++ runes_of_ascii "
-} packet o { Header ,
-    @lengthOf(	i8i8
-) float32
-    Pad // c
-,char[ 42 ]
-leftPad
-    @calculatedFrom(	"""" // " ++ [128512]%N ++ runes_of_ascii " emoji
-)
-    , @tag( 255 )
-body
-    u , } packet lengthOf{
-// packet A { u8 x, }
-// c
-@tag(
-    255 //x
-) char[ 0123456789 ] o
-`
-` , }
+    string_ chars `// not a comment` , }
 
 ")).
-Eval vm_compute in ("<<<M1924>>>" ++ check (runes_of_ascii "options {
-    // c1a
-    // c1b
-    LittleEndian = true;
-    // c5
-    StringPrefixLenType = u64;
-    // c9
-    ArrayPrefixLenType = u16;// c13a
-    // c13b
-    FixedStringPadFromLeft = false;
-    FixedStringPadChar = ' ';
-    // c21
+Eval vm_compute in ("<<<M1692>>>" ++ check (runes_of_ascii "packet T {
+    @tag(00)
+    repeat char[] charz `
+        `,
+    char[0123456789] BodyLength @lengthOf(Z9_) `u8 x,`,
 }
 
-packet Logon {
-    // c25
-    zchar[5] Side2,// c30
-}
-
-root packet Logout {
-    // c35
-    repeat i64 Tail,// c39
-    Logon,// c41
-    repeat i16 OrderId,// c45
-    char[] venue,
-    uint64 x,
-    // c51
-    repeat i16 count,
-    u8 Flags,
-    match Flags as Body {
-        25 : Logon,
-        // c67a
-        // c67b
-    },// c69a
-    // c69b
-    u16 Qty @calculatedFrom(""CRC32""),// c75a
-    // c75b
-}
-// c76")).
-Eval vm_compute in ("<<<M305>>>" ++ check (runes_of_ascii "packet
-pack{ u8 x ,
-char[
-    255 ]trueish
-@calculatedFrom(
-""// no comment"" ) `tab	here`,	@lengthOf( asx) repeat //
-zchar[
-0
-] stringy `
-`, @leftPad( '0' ) @calculatedFrom( // trailing space 
-""abc"" )
-    @calculatedFrom( ""it's""
-) char[] packetx@calculatedFrom( ""a	b"" ) `doc` , repeat string len
-    `two words`
-, uint16 matchKey
-    @lengthOf(
-    asx ) ,zchar[ 0 ]
-x `it's` // trailing space 
-, }
-    packet packetx {body  , string trueish `" ++ [233]%N ++ runes_of_ascii "` , @tag(255 )
-@tag(
-3
-// packet A { u8 x, }
-//	t
-) @calculatedFrom(
-    ""\n"" ) repeat f64 roots// trailing space 
-`" ++ [233]%N ++ runes_of_ascii "`	, /// triple
-} 	 ")).
-Eval vm_compute in ("<<<M1686>>>" ++ check (runes_of_ascii "options {
-    StringPrefixLenType = u8;
-    ArrayPrefixLenType = u8;
-    FixedStringPadFromLeft = false;
-    FixedStringPadChar = ' ';
-}
-
-packet Ack {
-    char[] tag7,
-}
-
-packet Reject {
-    InSym61 {
-        repeat Ack,
-        zchar[4] f1,
-    },
-}
-
-packet Logout {
-    char[4] clOrdID,
-}
-
-root packet Cancel {
-    @leftPad(' ')
-    char[10] price,
-    u8 x,
-    u32 venue @lengthOf(Body),
-    match x as Body {
-        [92, 175] : Logout,
-        26 : Reject,
-        144 : Ack,
-    },
-    u16 count @calculatedFrom(""CRC32""),
-}")).
-Eval vm_compute in ("<<<M334>>>" ++ check (runes_of_ascii "MetaData pack {
-int16 rootA `{ , }` ,
+MetaData crc {
+    float64 int `" ++ [28040; 24687; 31867; 22411]%N ++ runes_of_ascii "`,
+    As Logon ``,// `tick` ""quote"" 'q'
+    uint8 u,
+    u32 stringy `
+        `,
+    // a // b
     //	t
-    int16 // c
-x,// " ++ [27880; 37322]%N ++ runes_of_ascii "
-u32 msg_type,
-    }
-packet i64_
-    {// trailing space 
-@leftPad
-    ( '0') @rightPad ( '\x00' // packet A { u8 x, }
-)
-@lengthOf(options1	)
-    string body @lengthOf( asx) `" ++ [233]%N ++ runes_of_ascii "` ,
-    }
-options { msg_type
-    //	t
-    = 00//
-;} MetaData
-    stringy// c
-{
-    zchar MetaDataX `line1
-line2` , char[255] len `it's` , f32 pack ,
-    uint16 Foo
-`it's` , int16 i64_`two words` ,
-    // `tick` ""quote"" 'q'
-    }")).
-Eval vm_compute in ("<<<M1374>>>" ++ check (runes_of_ascii "
+    uint64 uint8x,
+    asx calculatedFrom,//x
+}
 
-  options
-{	LittleEndian
-=	true	;
-    StringPrefixLenType= 
-u64 
-;
-	ArrayPrefixLenType	=
-u16
-	;
-	FixedStringPadFromLeft
+MetaData chars {
+    char[1] chars,
+}// trailing space ")).
+Eval vm_compute in ("<<<M1390>>>" ++ check (runes_of_ascii "options
 
-=false ;
+    { LittleEndian=
 
-FixedStringPadChar	=  ' '
-	; } 
-packet
-
-Logon{
-	zchar[  5 ] Side2
-
-,
-	} root
-
+    true
+    ;}packet
+Logon {
+    u8 
+x,
+}
 packet Logout
 
-{repeat	i64 Tail
-, Logon
-    ,repeat
-i16
-OrderId
-
+    {u16
+reason
 ,
-	char[]venue  ,
-    uint64
-	x,repeat
-	i16 count,
-	u8	Flags,	match Flags as Body{
-25 :
-Logon	,
-
-    }
-,
-
-u16 
-Qty
-    @calculatedFrom( ""CRC32""
-)	,	}
-")).
-Eval vm_compute in ("<<<M1673>>>" ++ check (runes_of_ascii "
-packet int
-
-{
-	T/// triple
-	{	repeat
-_x ,	}	,
-i64_
-_x
-	`
-`
-    ,  @calculatedFrom( 
-""x y""
-	) u32	A
-
-    ,
-match
-a1  as
-i8i8
-
-{	[
-
-    ""1"" 
-, 4294967296 
-]
-    : a1 , """"
-
-    : a1 
-,007:
-	a1
-    ,
-[
-    ""CRC32""
-
-    ]
-
-    :	Header }
-,
-
-    int64  As 
-,
-int8
-
-    a1
-	,//
-    char[]
-	float `tab	here` /// triple
-, repeat 
-zchar[ 1
-
-    ]u8x	,
-	}	/// triple
-")).
-Eval vm_compute in ("<<<M77>>>" ++ check (runes_of_ascii "
-packet	float { char[ 42] int`say ""hi""` , @tag( 255// packet A { u8 x, }
-) match// a // b
-stringy  as
-    x { [ 00 ,42
-]: i64_ 42 : matchKey , [ ""1"" , 1
-, 42
-    ,
-""" ++ [28040; 24687]%N ++ runes_of_ascii """ , ""abc"" ,
-// a // b
-//x
-1 // trailing space 
-]
-: //
-roots
-,
-    65535
-: trueish ,	} ,@calculatedFrom( ""{,}"" )body @calculatedFrom(""" ++ [28040; 24687]%N ++ runes_of_ascii """ ) , zchar[
-    007 ] lengthOf, }
-")).
-Eval vm_compute in ("<<<M1268>>>" ++ check (runes_of_ascii "// top
-packet
-    // c0
-B
-    // c1
-{ // c2
-u8
-    // c3
-a // c4
-, string // c6
-s
-    // c7
-, } root // c10
-packet
-    // c11
-P // c12a
-  // c12b
-{
-    // c13
-u16
-    // c14
-L // c15a
-  // c15b
-@lengthOf( B
-    // c17
-)
-    // c18
-,
-    // c19
-B
-    // c20
-, u8 // c22a
-  // c22b
-t
-    // c23
-, // c24
-} ")).
-Eval vm_compute in ("<<<M1676>>>" ++ check (runes_of_ascii "options {
-    A = i16;
-}
-
-/// triple
-root packet rootA {
-    @tag(7)
-    int16 pack,
-    Logon @calculatedFrom(""a\""b"") `{ , }`,
-    @rightPad('\x00')
-    //
-    //
-    char[7] options1 `tab	here`,
-    @calculatedFrom(""" ++ [233]%N ++ runes_of_ascii "t" ++ [233]%N ++ runes_of_ascii """)
-    int @lengthOf(Packet) `crlf
-    line`,
-}")).
-Eval vm_compute in ("<<<M1615>>>" ++ check (runes_of_ascii "packet body {
-    @lengthOf(T)
-    @lengthOf(int)
-    @leftPad('\x00')
-    asx len,
-    repeat zchar[3] int `" ++ [28040; 24687; 31867; 22411]%N ++ runes_of_ascii "`,
-    @lengthOf(options1)
-    match x as leftPad {
-        7 : x_y_z,
-        65535 : u128,
-        42 : x,
-    },//
-}")).
-Eval vm_compute in ("<<<M1326>>>" ++ check (runes_of_ascii "packet Logon {
-    string user,
-}
+	}
 root packet Frame {
-    u8 K,
-    match K as Body {
-        1 : Logon,
-        2 : Logout,
-    },
-    Tail,
+
+    u64
+
+Kind
+
+,
+u64  Kind2
+
+    ,
+
+match Kind 
+as
+
+    Body
+{ 1
+:  Logon
+    , 
+[
+2 ,	3
+	,
+4
+
+]	: Logout
+,
+    100 : Logon
+	,
+}
+    ,	match  Kind2	as Trailer{ 
+0 :  Logout	,
+	} ,
+	}
+
+")).
+Eval vm_compute in ("<<<M1388>>>" ++ check (runes_of_ascii "options {
+    LittleEndian = true;
+}
+packet Logon {
+    u8 x,
 }
 packet Logout {
     u16 reason,
 }
-packet Tail {
-    u32 crc,
+root packet Frame {
+    u64 Kind,
+    u64 Kind2,
+    match Kind as Body {
+        1 : Logon,
+        [2, 3, 4] : Logout,
+        100 : Logon,
+    },
+    match Kind2 as Trailer {
+        0 : Logout,
+    },
 }
 ")).
-Eval vm_compute in ("<<<M186>>>" ++ check (runes_of_ascii "root packet packetx	{	char[ 1 ]chars @calculatedFrom(
-""packet"" ) `say ""hi""` ,} options
-    // trailing space 
-    { asx
-    // a // b
-    = 65535 u = float64 repeatCount  =""\" ++ [233]%N ++ runes_of_ascii """}
-")).
-Eval vm_compute in ("<<<M431>>>" ++ check (runes_of_ascii "packet uint8x
-{ match pack
-    as msg_type	{
-    0123456789 0123456789 :	float
-}
+Eval vm_compute in ("<<<M94>>>" ++ check (runes_of_ascii "MetaData chars{ uint64	A, msg_type asx
+    // c
+    , Z9_  a1,
+    stringy
+    i64_ //
+`doc` , }packet
+/// triple
+// a // b
+x_y_z {	} options {
+float // c
+=float32 rootA= false ;
+repeatCount// c
+=  char[ 10 ]
+; }	packet Z9_{zchar[007 ]
+    //	t
+    charz // c
 ,
-} packet //	t
-a1
-    { } options {packetx
-    = '\x00'	; u128= ""a	b""  ; }
-")).
-Eval vm_compute in ("<<<M458>>>" ++ check (runes_of_ascii "packet uint8x
-{ match pack
-    as msg_type	{
-    0123456789 :	float
+} //x")).
+Eval vm_compute in ("<<<M1306>>>" ++ check (runes_of_ascii "// top
+packet // c0a
+  // c0b
+orderItem // c1a
+  // c1b
+{ u8 // c3
+a // c4
+, // c5a
+  // c5b
 }
+    // c6
+root packet // c8a
+  // c8b
+newOrder // c9a
+  // c9b
+{ orderItem // c11
+, u8
+    // c13
+x // c14a
+  // c14b
 ,
-char[] packet //	t
-a1
-    { } options {packetx
-    = '\x00'	; u128= ""a	b""  ; }
+    // c15
+} // c16
 ")).
-Eval vm_compute in ("<<<M476>>>" ++ check (runes_of_ascii "packet uint8x
-{ match pack
-    as msg_type	{
-    0123456789 :	float
-}
-,
-} packet //	t
-a1
-    { } } options {packetx
-    = '\x00'	; u128= ""a	b""  ; }
-")).
-Eval vm_compute in ("<<<M402>>>" ++ check (runes_of_ascii "packet uint8x
-match { pack
-    as msg_type	{
-    0123456789 :	float
-}
-,
-} packet //	t
-a1
-    { } options {packetx
-    = '\x00'	; u128= ""a	b""  ; }
-")).
-Eval vm_compute in ("<<<M1623>>>" ++ check (runes_of_ascii "
+Eval vm_compute in ("<<<M1496>>>" ++ check (runes_of_ascii "
 packet
-string_
-{  @lengthOf(  float
+u128
+    {
+    @calculatedFrom(""a	b""  ) // packet A { u8 x, }
+@leftPad
 
-    )  // @lengthOf(
+( ' '
 
-BodyLength
-	{
-match uint8x
+)  //	t
+  @lengthOf(
 
-    as  i64_
-	{0123456789
-	:
-	As
+Header 	 // packet A { u8 x, }
+)char[  10
 
-    ,}
+] crc  @lengthOf(len
+	) , } MetaData
 
+    i8i8
+{
+	}
+")).
+Eval vm_compute in ("<<<M1843>>>" ++ check (runes_of_ascii "
+
+  packet	A{
+
+    match k as
+
+    n  {
+[ ""a"" ,
+
+    22  , 
+""c c"",4 ,
+
+""e""
+,  66
+
+    , 
+""g"" 
 ,
 
-}
-    ,}
+8	,""i"" ,
 
+    10
+
+    ,""k""
+
+    ,
+
+    12 ]
+	:	B ,  2 
+: C 
+} , } ")).
+Eval vm_compute in ("<<<M152>>>" ++ check (runes_of_ascii "packet T {
+int u ,
+@calculatedFrom( ""\" ++ [233]%N ++ runes_of_ascii """ ) // `tick` ""quote"" 'q'
+repeat// @lengthOf(
+string	x_y_z// a // b
+,
+uint32// `tick` ""quote"" 'q'
+int `crlf
+line` , }
 ")).
-Eval vm_compute in ("<<<M652>>>" ++ check (runes_of_ascii "// @lengthOf(
+Eval vm_compute in ("<<<M521>>>" ++ check (runes_of_ascii "packet uint8x
+{ match pack
+    as msg_type	{
+    0123456789 :	float
+}
+,
+} packet //	t
+a1
+    { } options {packetx
+    = '\x00'	; u128= ""a	b"" ""a	b""  ; }
+")).
+Eval vm_compute in ("<<<M446>>>" ++ check (runes_of_ascii "packet uint8x
+{ match pack
+    as msg_type	{
+    0123456789 :	float
+} }
+,
+} packet //	t
+a1
+    { } options {packetx
+    = '\x00'	; u128= ""a	b""  ; }
+")).
+Eval vm_compute in ("<<<M1557>>>" ++ check (runes_of_ascii "
+
+  packet
+    // " ++ [27880; 37322]%N ++ runes_of_ascii "
+  Logon{
+repeatCount@lengthOf(
+    roots	) , @tag(
+	0	)
+	repeat
+zchar[
+    007	]
+
+    crc ,rootA 
+a1
+	`{ , }`
+, 
+string_`" ++ [233]%N ++ runes_of_ascii "`
+	,
+}")).
+Eval vm_compute in ("<<<M527>>>" ++ check (runes_of_ascii "packet uint8x
+{ match pack
+    as msg_type	{
+    0123456789 :	float
+}
+,
+} packet //	t
+a1
+    { } options {packetx
+    = '\x00'	; u128= ""a	b""  } ;
+")).
+Eval vm_compute in ("<<<M1810>>>" ++ check (runes_of_ascii "packet roots {
+    // " ++ [27880; 37322]%N ++ runes_of_ascii "
+    @tag(0)
+    repeat zchar[0] x,
+}
+
+options {
+    As = ""\" ++ [233]%N ++ runes_of_ascii """;
+    pack = ' ';
+    int = '\x00';
+    options1 = ""`tick`"";
+}")).
+Eval vm_compute in ("<<<M705>>>" ++ check (runes_of_ascii "// @lengthOf(
 packet i8i8 { u128 o , }
 options { MetaDataX = true;
     BodyLength =""packet"" x_y_z= 007
-crc crc //x
+crc //x
+= = ""abc"" ;
+    msg_type =
+i16 }")).
+Eval vm_compute in ("<<<M722>>>" ++ check (runes_of_ascii "// @lengthOf(
+packet i8i8 { u128 o , }
+options { MetaDataX = true;
+    BodyLength =x_y_z ""packet""= 007
+crc //x
 = ""abc"" ;
     msg_type =
 i16 }")).
-Eval vm_compute in ("<<<M395>>>" ++ check (runes_of_ascii "packet 
-{ match pack
-    as msg_type	{
-    0123456789 :	float
+Eval vm_compute in ("<<<M1792>>>" ++ check (runes_of_ascii "
+MetaData leftPad
+
+{ 
+    // c
+
+chars MetaDataX
+, 
+}	packet repeatCount 
+{ char[ 255	]  uint8x	`" ++ [233]%N ++ runes_of_ascii "`,
+
+    } MetaData
+pack{  As
+Foo, 
 }
-,
-} packet //	t
-a1
-    { } options {packetx
-    = '\x00'	; u128= ""a	b""  ; }
 ")).
-Eval vm_compute in ("<<<M137>>>" ++ check (runes_of_ascii "
-packet u128//x
-{ @calculatedFrom(  ""x y""
-    ) // `tick` ""quote"" 'q'
-@rightPad (  ' ') char[ 42 ]  Header
-    @calculatedFrom( ""abc"" ),  }
+Eval vm_compute in ("<<<M1433>>>" ++ check (runes_of_ascii "packet stringy {
+}
 
-")).
-Eval vm_compute in ("<<<M329>>>" ++ check (runes_of_ascii "  packet calculatedFrom
-{ uint8x {body `line1
-line2`
-, string crc
-@lengthOf(uint8x// " ++ [128512]%N ++ runes_of_ascii " emoji
-) , char[]As@lengthOf(	Pad )
-    , } , }
-")).
-Eval vm_compute in ("<<<M1691>>>" ++ check (runes_of_ascii "// top
-root packet P {
-    // c3
-    u8 s_u8,// c6
-    repeat u8 r_u8,
-    // c10
-    u16 b_len,// c13a
-    // c13b
-}// c14a
-// c14b")).
-Eval vm_compute in ("<<<M1934>>>" ++ check (runes_of_ascii "
-
-  packet u 
-{
-
-    @tag(
-
-10// a // b
-  )  tag
-@lengthOf(
-    A 
-
+MetaData u8x {
+    zchar[65535] Pad,
+    stringy string_ `u8 x,`,
+    u8 lengthOf `
+    `,
+    char[255] pack,
+}")).
+Eval vm_compute in ("<<<M1941>>>" ++ check (runes_of_ascii "MetaData uint8x {
+    char[007] leftPad,
+    Pad T,
+    u64 BodyLength,
+    char[] int,
+    float Z9_,
+    float32 metadata,
+}")).
+Eval vm_compute in ("<<<M1141>>>" ++ check (runes_of_ascii "// c
+MetaData leftPad { chars MetaDataX , } packet repeatCount { char[ 255 ] uint8x `" ++ [233]%N ++ runes_of_ascii "` , } MetaData pack { As Foo , }")).
+Eval vm_compute in ("<<<M1174>>>" ++ check (runes_of_ascii "MetaData leftPad { chars MetaDataX , } packet repeatCount { char[ 255 ] uint8x `" ++ [233]%N ++ runes_of_ascii "` ,
+// c
+} MetaData pack { As Foo , }")).
+Eval vm_compute in ("<<<M961>>>" ++ check (runes_of_ascii "packet A {
+    u16 len @lengthOf(body) `tab
+	x`,
+    u32 crc @calculatedFrom(""CRC32"") `tab
+	x`,
+    string body,
+}")).
+Eval vm_compute in ("<<<M962>>>" ++ check (runes_of_ascii "packet A {
+    Inner {
+        u8 x `tab
+	x`,
+        Deep {
+            u8 y `tab
+	x`,
+        },
+    },
+}")).
+Eval vm_compute in ("<<<M867>>>" ++ check (runes_of_ascii "packet A {
+  match k as n {
+    [""a"", ""bb"", ""c c"", ""d"", ""e"", ""f"", ""g"", ""h"", ""i""] : B,
+    2 : C
+  },
+}")).
+Eval vm_compute in ("<<<M875>>>" ++ check (runes_of_ascii "packet A {
+  match k as n {
+    [""a"", ""bb"", 007, ""d"", ""e"", 66, ""g"", ""h"", 9] : B,
+    2 : C
+  },
+}")).
+Eval vm_compute in ("<<<M119>>>" ++ check (runes_of_ascii "packet u{ @tag(10 // a // b
+) tag  @lengthOf( A
 // " ++ [128512]%N ++ runes_of_ascii " emoji
 // a // b
-    )
-    ,  repeat options1, }")).
-Eval vm_compute in ("<<<M1147>>>" ++ check (runes_of_ascii "MetaData leftPad { // c
-chars MetaDataX , } packet repeatCount { char[ 255 ] uint8x `" ++ [233]%N ++ runes_of_ascii "` , } MetaData pack { As Foo , }")).
-Eval vm_compute in ("<<<M1179>>>" ++ check (runes_of_ascii "MetaData leftPad { chars MetaDataX , } packet repeatCount { char[ 255 ] uint8x `" ++ [233]%N ++ runes_of_ascii "` , } MetaData pack // c
-{ As Foo , }")).
-Eval vm_compute in ("<<<M1424>>>" ++ check (runes_of_ascii "
-packet B
-
-    {u8
-a  , string 
-s
-,} root
-	packet
-
-P 
+) , repeat options1 ,  }")).
+Eval vm_compute in ("<<<M613>>>" ++ check (runes_of_ascii "
+packet
+    asx {match u128 as lengthOf
 {
-	u16 L
-	@lengthOf(  B
+//	t
+// `tick` ""quote"" 'q'
+255 : x ,
+    } } ,	}")).
+Eval vm_compute in ("<<<M574>>>" ++ check (runes_of_ascii "
+packet
+    asx {match as u128 lengthOf
+{
+//	t
+// `tick` ""quote"" 'q'
+255 : x ,
+    } ,	}")).
+Eval vm_compute in ("<<<M577>>>" ++ check (runes_of_ascii "
+packet
+    asx {match u128  lengthOf
+{
+//	t
+// `tick` ""quote"" 'q'
+255 : x ,
+    } ,	}")).
+Eval vm_compute in ("<<<M567>>>" ++ check (runes_of_ascii "
+packet
+    asx { u128 as lengthOf
+{
+//	t
+// `tick` ""quote"" 'q'
+255 : x ,
+    } ,	}")).
+Eval vm_compute in ("<<<M1894>>>" ++ check (runes_of_ascii "packet A {
+    match k as n {
+        [1, ""bb"", 007] : B,
+        2 : C,
+    },
+}")).
+Eval vm_compute in ("<<<M820>>>" ++ check (runes_of_ascii "packet A {
+  match k as n {
+    [""a"", 22, ""c c"", 4, ""e""] : B
+    2 : C
+  },
+}")).
+Eval vm_compute in ("<<<M1754>>>" ++ check (runes_of_ascii "
+root
 
-    )  , B  ,
+packet string_  {  char[]
 
-u8
-    t ,
+matchKey
+    ,
+} packet	x
+
+    {  }
+")).
+Eval vm_compute in ("<<<M864>>>" ++ check (runes_of_ascii "packet A { Inner { match k as n { [1,22,007,4,5,66,7,8] : B, }, }, }")).
+Eval vm_compute in ("<<<M782>>>" ++ check (runes_of_ascii "packet A {
+  match k as n {
+    [1, ""bb""] : B,
+    2 : C
+  },
+}")).
+Eval vm_compute in ("<<<M775>>>" ++ check (runes_of_ascii "packet A {
+  match k as n {
+    [""a""] : B,
+    2 : C
+  },
+}")).
+Eval vm_compute in ("<<<M1556>>>" ++ check (runes_of_ascii "
+MetaData
+M {
+    u8 x
+    `a
+b`
+,
+T t`a
+b` ,
 	}
+
 ")).
-Eval vm_compute in ("<<<M902>>>" ++ check (runes_of_ascii "packet A {
-  match k as n {
-    [""a"", ""bb"", 007, ""d"", ""e"", 66, ""g"", ""h"", 9, ""j"", ""k""] : B
-    2 : C
-  },
-}")).
-Eval vm_compute in ("<<<M889>>>" ++ check (runes_of_ascii "packet A {
-  match k as n {
-    [""a"", ""bb"", 007, ""d"", ""e"", 66, ""g"", ""h"", 9, ""j""] : B
-    2 : C
-  },
-}")).
-Eval vm_compute in ("<<<M904>>>" ++ check (runes_of_ascii "packet A {
-  match k as n {
-    [1, 22, 007, 4, 5, 66, 7, 8, 9, 10, 11, 12] : B,
-    2 : C
-  },
-}")).
-Eval vm_compute in ("<<<M593>>>" ++ check (runes_of_ascii "
-packet
-    asx {match u128 as lengthOf
-{
-//	t
-// `tick` ""quote"" 'q'
-255 255 : x ,
-    } ,	}")).
-Eval vm_compute in ("<<<M682>>>" ++ check (runes_of_ascii "// @lengthOf(
-packet i8i8 { u128 o , }
-options { MetaDataX = true;
-    BodyLength =""packet""")).
-Eval vm_compute in ("<<<M614>>>" ++ check (runes_of_ascii "
-packet
-    asx {match u128 as lengthOf
-{
-//	t
-// `tick` ""quote"" 'q'
-255 : x ,
-    , }	}")).
-Eval vm_compute in ("<<<M557>>>" ++ check (runes_of_ascii "
-packet
-     {match u128 as lengthOf
-{
-//	t
-// `tick` ""quote"" 'q'
-255 : x ,
-    } ,	}")).
-Eval vm_compute in ("<<<M647>>>" ++ check (runes_of_ascii "// @lengthOf(
-packet i8i8 { u128 o , }
-options { MetaDataX = true;
-    BodyLength =")).
-Eval vm_compute in ("<<<M839>>>" ++ check (runes_of_ascii "packet A {
-  match k as n {
-    [1, 22, 007, 4, 5, 66, 7] : B,
-    2 : C
-  },
-}")).
-Eval vm_compute in ("<<<M827>>>" ++ check (runes_of_ascii "packet A {
-  match k as n {
-    [1, 22, 007, 4, 5, 66] : B
-    2 : C
-  },
-}")).
-Eval vm_compute in ("<<<M1475>>>" ++ check (runes_of_ascii "// top
-root packet P {
-    // c3
-    repeat char cs,
-    u8 x,
-}
-// c11")).
-Eval vm_compute in ("<<<M787>>>" ++ check (runes_of_ascii "packet A {
-  match k as n {
-    [1, 22, 007] : B,
-    2 : C
-  },
-}")).
-Eval vm_compute in ("<<<M88>>>" ++ check (runes_of_ascii "options// @lengthOf(
-{a1 = 65535
-// `tick` ""quote"" 'q'
+Eval vm_compute in ("<<<M1214>>>" ++ check (runes_of_ascii "packet body { i32 f32a `{ , }` , }
 // c
+options { }")).
+Eval vm_compute in ("<<<M284>>>" ++ check (runes_of_ascii "
+options{ trueish=
+'0' //	t
+;a1 = u64
+; }")).
+Eval vm_compute in ("<<<M1066>>>" ++ check (runes_of_ascii "packet A {
+    u8 x,    // c    u8 y,
 }")).
-Eval vm_compute in ("<<<M1922>>>" ++ check (runes_of_ascii "// top
-root packet P {
-    // c3
-    string s,
-    // c6
-}")).
-Eval vm_compute in ("<<<M1198>>>" ++ check (runes_of_ascii "
-// c
-packet body { i32 f32a `{ , }` , } options { }")).
-Eval vm_compute in ("<<<M1079>>>" ++ check (runes_of_ascii "packet A { u8 x, } // a
-// b
-packet B {} // c
-// d")).
-Eval vm_compute in ("<<<M1737>>>" ++ check (runes_of_ascii "options {
-    len = ""packet""
-    int = ""abc""
-}")).
-Eval vm_compute in ("<<<M940>>>" ++ check (runes_of_ascii "root packet A {
+Eval vm_compute in ("<<<M1626>>>" ++ check (runes_of_ascii "packet A {
     u8 x `a
-    b
-  c`,
+        b`,
 }")).
-Eval vm_compute in ("<<<M1699>>>" ++ check (runes_of_ascii "packet A {
-    u8 x,// c
-    u8 y,
+Eval vm_compute in ("<<<M958>>>" ++ check (runes_of_ascii "root packet A {
+    u8 x `
+x`,
 }")).
-Eval vm_compute in ("<<<M1833>>>" ++ check (runes_of_ascii "packet A {
-    u8 x `d" ++ [8202]%N ++ runes_of_ascii "`,// c" ++ [8202]%N ++ runes_of_ascii "
+Eval vm_compute in ("<<<M1003>>>" ++ check (runes_of_ascii "packet A {
+ u8 x `d" ++ [8192]%N ++ runes_of_ascii "`, // c" ++ [8192]%N ++ runes_of_ascii "
 }")).
-Eval vm_compute in ("<<<M1053>>>" ++ check (runes_of_ascii "packet A {
- u8 x `d" ++ [65279]%N ++ runes_of_ascii "`, // c" ++ [65279]%N ++ runes_of_ascii "
+Eval vm_compute in ("<<<M953>>>" ++ check (runes_of_ascii "packet A {
+    u8 x `
+x`,
 }")).
-Eval vm_compute in ("<<<M1588>>>" ++ check (runes_of_ascii "
-MetaData tag
-{  // c
-
-}
-")).
-Eval vm_compute in ("<<<M63>>>" ++ check (runes_of_ascii "packet i64_
-    { }
-
-")).
-Eval vm_compute in ("<<<M170>>>" ++ check (runes_of_ascii "packet pack
-{
-} 	 ")).
-Eval vm_compute in ("<<<M1002>>>" ++ check (runes_of_ascii "// c" ++ [8192]%N ++ runes_of_ascii "
+Eval vm_compute in ("<<<M268>>>" ++ check (runes_of_ascii " // packet A { u8 x, }")).
+Eval vm_compute in ("<<<M20>>>" ++ check (runes_of_ascii "packet MetaDataX { }")).
+Eval vm_compute in ("<<<M977>>>" ++ check (runes_of_ascii "// c 
 packet A {
 }")).
-Eval vm_compute in ("<<<M571>>>" ++ check (runes_of_ascii "
-packet
-    asx {")).
-Eval vm_compute in ("<<<M356>>>" ++ check (runes_of_ascii "packet uint8x {}")).
-Eval vm_compute in ("<<<M255>>>" ++ check (runes_of_ascii " /// triple")).
-Eval vm_compute in ("<<<M1045>>>" ++ check (runes_of_ascii "// c" ++ [8203]%N)).
+Eval vm_compute in ("<<<M1059>>>" ++ check (runes_of_ascii "packet A {
+}// c x")).
+Eval vm_compute in ("<<<M1228>>>" ++ check (runes_of_ascii "packet x // c
+{ }")).
+Eval vm_compute in ("<<<M376>>>" ++ check (runes_of_ascii "
+// " ++ [128512]%N ++ runes_of_ascii " emoji
+")).
+Eval vm_compute in ("<<<M1020>>>" ++ check (runes_of_ascii "// c" ++ [8239]%N)).
